@@ -845,6 +845,13 @@ int reb_collision_resolve_merge(struct reb_simulation* const r, struct reb_colli
     pi->z  = (pi->z*pi->m + pj->z*pj->m)*invmass;
     pi->m  = pi->m + pj->m;
     pi->r  = cbrt(pi->r*pi->r*pi->r + pj->r*pj->r*pj->r);
+    // Keep track of the largest radii (used by the tree collision search).
+    if (pi->r >= r->max_radius0){
+        r->max_radius1 = r->max_radius0;
+        r->max_radius0 = pi->r;
+    }else if (pi->r >= r->max_radius1){
+        r->max_radius1 = pi->r;
+    }
     pi->last_collision = r->t;
 
 
